@@ -286,7 +286,7 @@ def huge_backlog(ctx, tmpdir):
     from ..sched import strategies as SS
 
     rng = ctx.rng("backlog")
-    nblocks = 10400 + rng.randint(0, 300)
+    nblocks = 16600 + rng.randint(0, 300)
     case = P.small_pipeline_case(rng, 4, [], True)
     case.update(block=1, w=1 / 8, rate=8, width=1, channels=1, thr=20.0, min_len=1, max_len=2, max_sil=0, partial=0)
     case["v"] = [1 if (i // 7) % 2 else 0 for i in range(nblocks)]
@@ -309,6 +309,152 @@ def huge_backlog(ctx, tmpdir):
     check_run(ctx, case, data, res, expected, tmpdir)
 
 
+def export_cases(ctx, tmpdir):
+    """(a) raw export of a stream longer than 2**20 frames; (b) a target format nobody can encode here: the wav that was
+    written must survive the workers (export_audio() warns, objects are dropped and collected)."""
+    import gc
+    import struct
+
+    import auditok.workers as W_
+
+    rng = ctx.rng("export")
+    # (a) real threads, real queue: 2**20 + a bit frames of 16-bit stereo in 4096-sample blocks
+    rate, width, channels, block = 16000, 2, 2, 4096
+    nblocks = 2 ** 20 // block + 9
+    unit = struct.pack("<4h", 3000, -3000, 120, -120)
+    data = (unit * (block * nblocks // 2 + 1))[: block * nblocks * width * channels]
+    data = data[: len(data) - 5 * width * channels]  # ragged last block
+    for fname, fmt in (("big.raw", None), ("big_noext", "raw")):
+        path = os.path.join(tmpdir, fname)
+        reader = auditok.AudioReader(data, block_dur=block / rate, sr=rate, sw=width, ch=channels)
+        saver = W_.StreamSaverWorker(reader, filename=path, export_format=fmt, cache_size_sec=rng.choice((0.0, 0.5, 30.0)))
+        saver.start()
+        tw = W_.TokenizerWorker(saver, [], min_dur=0.3, max_dur=5, max_silence=0.3, energy_threshold=50)
+        tw.start_all()
+        tw.join(120)
+        saver.join(120)
+        ctx.count("raw_export_runs")
+        ctx.case(("raw-export", fname, len(data)), True)
+        if tw.is_alive() or saver.is_alive():
+            ctx.count("inconclusive_runs")
+            ctx.note("raw export run still alive after 120 s")
+            continue
+        try:
+            saver.export_audio()
+            got = open(path, "rb").read()
+        except Exception as exc:
+            ctx.violation("raw-export-raises:" + type(exc).__name__, {"case": {"raw_export": fname, "frames": len(data) // (width * channels)}, "exception": repr(exc)[:200]})
+            continue
+        if got != data:
+            key = "exported-raw-stream-lost-tail" if data.startswith(got) else "exported-raw-stream-differs"
+            ctx.violation(key, {"case": {"raw_export": fname, "frames": len(data) // (width * channels)}, "exported_bytes": len(got), "read_bytes": len(data)})
+        del saver, tw, reader
+    # (b)
+    small = data[: 40 * block * width * channels]
+    path = os.path.join(tmpdir, "stream.ogg")
+    reader = auditok.AudioReader(small, block_dur=block / rate, sr=rate, sw=width, ch=channels)
+    saver = W_.StreamSaverWorker(reader, filename=path)
+    saver.start()
+    tw = W_.TokenizerWorker(saver, [], min_dur=0.3, max_dur=5, max_silence=0.3, energy_threshold=50)
+    tw.start_all()
+    tw.join(60)
+    saver.join(60)
+    told = None
+    try:
+        saver.export_audio()
+    except Exception as exc:  # AudioEncodingWarning: "... Audio file was saved as '<path>'"
+        told = str(exc)
+    del saver, tw, reader
+    gc.collect()
+    ctx.count("unencodable_export_runs")
+    ctx.case(("unencodable-export", len(small)), True)
+    kept = [f for f in os.listdir(tmpdir) if f.startswith("stream.ogg")]
+    ok = False
+    for f in kept:
+        try:
+            if P.wav_read(os.path.join(tmpdir, f))[0] == small:
+                ok = True
+        except Exception:
+            pass
+    if not ok:
+        ctx.violation("saved-stream-gone-after-failed-export", {"case": {"export": "stream.ogg (no encoder installed)"}, "files_left": kept, "tool_said": (told or "")[:200]})
+
+
+def timeout_marathon(ctx, tmpdir):
+    """the source stalls for more than a thousand queue-wait timeouts of the writer thread before the stream goes on."""
+    from ..sched import strategies as SS
+
+    rng = ctx.rng("marathon")
+    for observers in (["joiner"], ["regionsaver"]):
+        case = P.small_pipeline_case(rng, 5, observers, True)
+        built = AC.build_audio(case)
+        if built is None:
+            continue
+        data, _ = built
+        P.clean_dir(tmpdir)
+        expected = P.split_reference(data, case)
+        case["strategy"] = "marathon(1300 consecutive timeouts)"
+        res = P.run_pipeline(case, data, tmpdir, strategy=SS.Marathon(rng.getrandbits(32), 1300))
+        ctx.count("timeout_marathon_runs")
+        ctx.count("timeouts_fired", res.sched.timeouts_fired)
+        ctx.case(stable_hash(["marathon", observers, res.sched.steps]), True)
+        check_run(ctx, case, data, res, expected, tmpdir)
+
+
+def two_pipelines_at_once(ctx, tmpdir):
+    """two independent saver pipelines alive in one process at the same time, under one scheduler."""
+    import auditok.workers as W_
+
+    from ..sched import harness as H_
+    from ..sched import strategies as SS
+
+    rng = ctx.rng("two")
+    for _ in range(6 if ctx.tier == "quick" else 120):
+        cases = [P.random_pipeline_case(rng, max_windows=14, want_saver=True) for _ in range(2)]
+        built = [AC.build_audio(c) for c in cases]
+        if any(b is None for b in built):
+            continue
+        P.clean_dir(tmpdir)
+        holder = {}
+
+        def script(sched):
+            for k, (case, (data, _)) in enumerate(zip(cases, built)):
+                rd = H_.SchedReader(data, block_dur=case["w"], **AC.audio_kwargs(case)).vf_init(sched)
+                path = os.path.join(tmpdir, f"two{k}.wav")
+                sv = W_.StreamSaverWorker(rd, filename=path, cache_size_sec=case["saver"]["cache_size_sec"])
+                sv.vf_name = f"saver{k}"
+                sv.start()
+                kw = {a: b for a, b in AC.split_kwargs(case).items() if a != "analysis_window"}
+                tw = W_.TokenizerWorker(sv, [], **kw)
+                tw.vf_name = f"tokenizer{k}"
+                holder[k] = (rd, sv, tw, path)
+            for k in holder:
+                holder[k][2].start_all()
+
+        sched, info = H_.run_scheduled(script, SS.make(rng.choice(SS.NAMES), rng.getrandbits(32), rng.choice((0, 5, 20))), step_cap=60000)
+        ctx.count("two_pipeline_runs")
+        ctx.count("scheduled_runs")
+        ctx.case(stable_hash(["two", sched.decisions]), True)
+        if sched.aborted is not None:
+            kind_, detail = sched.aborted
+            if kind_ in ("step-cap", "wall-cap"):
+                ctx.count("inconclusive_runs")
+            else:
+                ctx.violation(kind_ if kind_ != "non-termination" else "thread-never-terminates", {"case": {"two_pipelines": [P.case_json(c) for c in cases]}, "detail": detail})
+            continue
+        for k, (case, (data, _)) in enumerate(zip(cases, built)):
+            try:
+                frames = P.wav_read(holder[k][3])[0]
+            except Exception as exc:
+                ctx.violation("saved-stream-unreadable", {"case": {"two_pipelines": k}, "exception": repr(exc)[:200]})
+                break
+            if frames != data:
+                other = built[1 - k][0]
+                key = "saved-stream-holds-blocks-of-another-pipeline" if (len(frames) != len(data) or any(frames[i:i + 8] in other for i in range(0, min(len(frames), 64), 8) if frames[i:i + 8] != data[i:i + 8])) else "saved-stream-blocks-out-of-order-or-altered"
+                ctx.violation(key, {"case": {"two_pipelines": [P.case_json(c) for c in cases], "file": k}, "saved": len(frames), "read": len(data)})
+                break
+
+
 def run_shard(ctx):
     conf = TIERS[ctx.tier]
     tmpdir = tempfile.mkdtemp(prefix="vf-c13-")
@@ -321,6 +467,11 @@ def run_shard(ctx):
                 break
         if ctx.shard == 1 or (ctx.tier == "thorough" and ctx.shard < 6):
             huge_backlog(ctx, tmpdir)
+        if ctx.shard == 5 or (ctx.tier == "thorough" and ctx.shard in (6, 7)):
+            export_cases(ctx, tmpdir)
+        if ctx.shard == 6 or (ctx.tier == "thorough" and ctx.shard in (8, 9)):
+            timeout_marathon(ctx, tmpdir)
+        two_pipelines_at_once(ctx, tmpdir)
         systematic(ctx, conf, tmpdir)
         stress(ctx, conf, tmpdir)
         rng = ctx.rng("lines")
@@ -345,10 +496,10 @@ def inconclusive(merged, tier):
     c = merged["counters"]
     need = ["scheduled_runs", "saver_runs", "blocks_checked", "joiner_files_checked", "joiner_files_with_zero_events",
             "region_dirs_checked", "region_files_checked", "runs_on_empty_stream", "runs_on_event_free_stream", "runs_with_a_stop", "runs_with_short_reads",
-            "line_mode_runs", "timeouts_fired", "systematic_schedules", "systematic_pipelines_fully_enumerated", "stress_runs", "stress_files_checked", "huge_backlog_runs"]
+            "line_mode_runs", "timeouts_fired", "systematic_schedules", "systematic_pipelines_fully_enumerated", "stress_runs", "stress_files_checked", "huge_backlog_runs", "raw_export_runs", "unencodable_export_runs", "two_pipeline_runs", "timeout_marathon_runs"]
     out = [f"monitor never observed {k}" for k in need if c.get(k, 0) == 0]
-    if c.get("max:queue_depth", 0) < 10000:
-        out.append("the writer never lagged by more than 10000 blocks")
+    if c.get("max:queue_depth", 0) < 16384:
+        out.append("the writer never lagged by more than 16384 blocks")
     if c.get("inconclusive_runs", 0) > max(3, c.get("scheduled_runs", 0) // 50):
         out.append(f"{c['inconclusive_runs']} runs hit a step/wall cap")
     return out
